@@ -7,10 +7,12 @@
 //	       provider; after every label the harness records the label's output, the cache, the four
 //	       statistics counters and the two stacks, and Coq replays the labels on the LTS of
 //	       Model/InstanceCache.v and compares (Corr/C12.v).  time.Now() is read by the code directly,
-//	       so after every handleInstanceInfo / Peek the stamps just written are moved from the wall
-//	       clock onto an exact virtual time axis (hook VerifRebaseStamps); refresh ticks get the
-//	       virtual time.  Periods and clock advances are multiples of half a second, so ticks fall
-//	       exactly on the idle / expiry boundaries as well as next to them; stamps are compared too.
+//	       so the harness keeps every stamp in the wall-clock domain at a known offset from its
+//	       virtual clock (re-based before every step that reads the clock) and replaces the stamps a
+//	       step wrote by exactly "that step's clock reading (+ the TTL)" (hooks VerifShiftStamps,
+//	       VerifExactStamps, VerifSetStamps); refresh ticks get virtual now + offset.  Stamps are
+//	       exact to the nanosecond and are compared too.  Periods: half-second grid, milliseconds
+//	       (1 ms .. 1.5 s, with Peeks 1-20 ms apart across ticks), hours, MaxInt64 and MaxInt64/2 ns.
 //	async  the real Run + lookup dispatcher goroutines with a mock clock for the refresh ticker and
 //	       concurrent submitters; checked by monitors (every submitted source queried, one answer
 //	       per position of every provider call, batch sizes, good data kept, eviction); the sequence
@@ -49,7 +51,8 @@ type resEntry struct {
 type opIn struct {
 	Op     string     `json:"op"` // submit send batch handle return refresh peek
 	S      string     `json:"s,omitempty"`
-	Adv    int64      `json:"adv,omitempty"` // half seconds of virtual time that pass before the op
+	Adv    int64      `json:"adv,omitempty"`    // half seconds of virtual time that pass before the op
+	AdvMs  int64      `json:"adv_ms,omitempty"` // plus milliseconds
 	Res    []resEntry `json:"res,omitempty"`
 	NilMap bool       `json:"nilmap,omitempty"`
 	Err    bool       `json:"err,omitempty"`
@@ -60,6 +63,7 @@ type asyncIn struct {
 	Script  []string   `json:"script"`            // provider outcome per call, cycled: full partial empty nilmap efull epartial eempty enil
 	Limiter string     `json:"limiter,omitempty"` // "" / inf | burst
 	Burst   int        `json:"burst,omitempty"`
+	IdleMax bool       `json:"idle_max,omitempty"` // CacheEvictAfterIdlePeriod = MaxInt64 ns
 }
 
 type input struct {
